@@ -308,7 +308,7 @@ def match_executed(ops, k, after):
 
 # ----------------------------------------------------------------- the check
 def run(ck: common.Check):
-    ck.prove(["GeffProps.C05"])
+    ck.prove(["GeffProps.C05", "GeffProps.C05Links"])
     ck.rule = ("case = (zarr format, store kind, foreign members?, pre-existing geff?, entry point, graph, overwrite, "
                "invalid-input kind); streams: corpus, bounded matrix on 3-node graphs (format x kind x pre-state x "
                "{write_arrays, geff.write}), seeded random graphs (0-6 nodes, 0-3 node / 0-2 edge properties of "
